@@ -102,11 +102,12 @@ def run(ctx):
                 '(file, requested unit) read; non-trivial = stored != requested')
     ctx.assume('oracle: explicit cgs factors (1 mJy = 1e-26 erg/s/cm2/Hz, 1 W/m2 = 1e3 erg/s/cm2, L = F d^2 with d in cm as the statement says)',
                'rtol 1e-12', 'a file without the DISTANCE keyword is read as being at 1 kpc (the fallback the reader documents)')
-    ctx.require_events('convert_flux:post', 'read:matrix', 'roundtrip:ABA', 'chain:ABC', 'refused:target', 'refused:stored')
-    ctx.require_regimes('stored:desc-wav', 'stored:asc-wav', 'read-order:nu', 'read-order:wav', 'stored:nu-in-GHz', 'stored:no-distance', 'stored:error-column-other-unit', 'stored:float32')
+    ctx.require_events('direct:same-grid-other-distance', 'convert_flux:post', 'read:matrix', 'roundtrip:ABA', 'chain:ABC', 'refused:target', 'refused:stored')
+    ctx.require_regimes('stored:grid-shared-with-other-files', 'stored:desc-wav', 'stored:asc-wav', 'read-order:nu', 'read-order:wav', 'stored:nu-in-GHz', 'stored:no-distance', 'stored:error-column-other-unit', 'stored:float32')
     d = ctx.newdir('c15')
     names = list(UNITS)
     ic = 0
+    wav_shared = np.sort(gen.loguniform(rng, 0.1, 1000.0, 12))
     for rep in range(2 if ctx.quick else 24):
         for a in names:
             for spelling in UNITS[a][1] + ['<SED.write>']:
@@ -116,6 +117,10 @@ def run(ctx):
                 n_ap = int(rng.integers(1, 6))
                 n_w = int(rng.integers(2, 30))
                 wav = np.sort(gen.loguniform(rng, 0.1, 1000.0, n_w))
+                if ic % 2 == 0:
+                    # the SEDs of a model package share one wavelength grid and differ in distance: every other file uses the same grid
+                    n_w, wav = len(wav_shared), wav_shared.copy()
+                    ctx.regime('stored:grid-shared-with-other-files')
                 nu = pkg.C_UM_HZ / wav
                 dist_kpc = float(gen.loguniform(rng, 0.01, 100.0)) if (ic + rep) % 3 != 2 else float(gen.loguniform(rng, 50.0, 3000.0))
                 d_cm = dist_kpc * KPC_CM
@@ -244,6 +249,12 @@ def run(ctx):
         for it in range(40 if ctx.quick else 200):
             n_w = int(rng.integers(1, 20))
             nu = (10.0 ** rng.uniform(10, 16, n_w)) * u.Hz
+            if it % 2 == 1:
+                # the same frequency grid as the previous round, at another distance (the contract on convert_flux holds the reference)
+                nu = nu_prev.copy()
+                n_w = len(nu)
+                ctx.event('direct:same-grid-other-distance')
+            nu_prev = nu.copy()
             dq = float(gen.loguniform(rng, 1e-3, 1e3)) * u.kpc
             f = 10.0 ** rng.uniform(-6, 6, (int(rng.integers(1, 6)), n_w))
             for a in names:
